@@ -35,6 +35,10 @@ def run(ctx):
     ctx.guard(scope_rule, ctx)
     from . import scope as _scope
     ctx.guard(_scope.symbols_exact, ctx, 'C06-SYMBOLS')
+    from . import c08 as _c08, c13 as _c13, lexrules as _lex
+    _g = _lex.grammar_of(ctx.repo, 'bridgepoint.oal:OALParser')
+    ctx.shared(_c08.taint, ctx, _g, _c08.keyword_fields(ctx, _g))   # cardinality keywords decide V_INT / V_INS and the select subtype
+    ctx.shared(_c13.track, ctx)                # node positions are what prebuild copies into the instances
     from . import listnodes
     ctx.guard(listnodes.check, ctx, 'C06-NONE')
     ctx.guard(oblig_rule, ctx, ki)
